@@ -122,14 +122,13 @@ func Interval(interval time.Duration) Observable[int64] {
 // Play: https://go.dev/play/p/Xhi6c336ldy
 func IntervalWithInitial(initial, interval time.Duration) Observable[int64] {
 	return NewObservableWithContext(func(ctx context.Context, destination Observer[int64]) Teardown {
-		tickerPeriod := initial * 2
-		if initial == 0 {
-			// time.NewTicker panics on a non-positive period; with no initial delay
-			// the first value is emitted right below and the ticker runs at `interval`
-			tickerPeriod = interval
-		}
+		// The ticker only starts (Reset) once the initial delay has elapsed. It used
+		// to run at twice the initial delay meanwhile: a goroutine scheduled late
+		// could then find both the timer and that ticker ready and emit two values
+		// back to back, the second one before initial+interval.
+		ticker := time.NewTicker(time.Hour)
+		ticker.Stop()
 
-		ticker := time.NewTicker(tickerPeriod)
 		timer := time.NewTimer(initial)
 		done := make(chan struct{}, 1)
 
